@@ -743,7 +743,11 @@ def reader_loops(c, chk):
                 res = fr[-1].res
                 nodata = False
                 for cn, t, _ in p.assume:
-                    if cn[0] == 'icmp' and cn[1] in ('eq', 'ne') and sym.C0 in (cn[2], cn[3]) and sym.mentions(cn, lambda v: v == res) and ((cn[1] == 'eq') == t):
+                    if cn[0] != 'icmp' or not sym.mentions(cn[2], lambda v: v == res) or not sym.is_const(cn[3]):
+                        continue
+                    k = cn[3][1]
+                    if (cn[1], k, t) in (('eq', 0, True), ('ne', 0, False), ('ugt', 0, False), ('ule', 0, True), ('ult', 1, True), ('uge', 1, False),
+                                         ('sgt', 0, False), ('sle', 0, True), ('slt', 1, True), ('sge', 1, False)):
                         nodata = True
                 if not nodata:
                     continue
